@@ -3,7 +3,7 @@ from checklib import cbytes, cbool, clist, cpair, cN
 
 ID = "C09"
 HARNESS = "c09"
-N_CASES = {"quick": 400, "thorough": 12000}
+N_CASES = {"quick": 350, "thorough": 12000}
 N_SEARCH = {"quick": 1, "thorough": 2}
 SHARD = 250
 RULE = ("line level: the sample lines of data_test.go and boundary shapes, then seeded lines of all 17 record types "
